@@ -15,10 +15,13 @@ import (
 	"go.opentelemetry.io/collector/consumer"
 	"go.opentelemetry.io/collector/consumer/consumererror"
 	"go.opentelemetry.io/collector/pdata/pmetric"
+	"google.golang.org/grpc"
 	"google.golang.org/grpc/codes"
+	"google.golang.org/grpc/credentials/insecure"
 	"google.golang.org/grpc/status"
 
 	stefgrpc "github.com/splunk/stef/go/grpc"
+	"github.com/splunk/stef/go/grpc/stef_proto"
 	"github.com/splunk/stef/go/otel/otelstef"
 	"github.com/splunk/stef/go/pdata/metrics/sortedbymetric"
 	"github.com/splunk/stef/go/pkg"
@@ -281,6 +284,17 @@ func onStreamJobs(want func(string) bool) []func() *caseOut {
 				jobs = append(jobs, func() *caseOut { return runShortFrameCase(name, nb, target, seed) })
 			}
 		}
+		nwr := 6
+		if thorough() {
+			nwr = 30
+		}
+		for k := 0; k < nwr; k++ {
+			seed := sr.U64()
+			name := fmt.Sprintf("onstream-wire-responses-%d", k)
+			if want(name) {
+				jobs = append(jobs, func() *caseOut { return runWireResponsesCase(name, seed) })
+			}
+		}
 	}
 	add := func(name string, sc *script) {
 		seed := r.U64()
@@ -538,5 +552,173 @@ func runShortFrameCase(name string, nb, target int, seed uint64) *caseOut {
 	// the standard oracles - an acknowledged id is the last id of a decoded, consumed batch
 	finishC16(c, tr.snapshot(), oracleOpts{exactRanges: false, quiescent: false, written: -1})
 	c.stat("shortframe-records-existing", existing)
+	return c
+}
+
+// ---- the responses AS THE CLIENT RECEIVES THEM ------------------------------------------------------
+// A raw gRPC client (handshake by hand) sends frames written by the real MetricsWriter to the real
+// receiver loop + Responder behind a real StreamServer and reads the STEFDataResponse messages off the
+// wire. What the Responder hands to the stream is judged elsewhere; here the transport's own handling of
+// the response message (go/grpc/server.go SendDataResponse) is in the loop: every permanently rejected
+// batch must appear in exactly ONE response the client receives, with exactly its id range, and the
+// acknowledgement ids the client sees never decrease.
+
+type wireResp struct {
+	ack    uint64
+	ranges [][2]uint64
+}
+
+type frameCollector struct{ frames [][]byte }
+
+func (f *frameCollector) WriteChunk(h, c []byte) error {
+	f.frames = append(f.frames, append(append([]byte(nil), h...), c...))
+	return nil
+}
+
+func runWireResponsesCase(name string, seed uint64) *caseOut {
+	c := newCase("C16", name)
+	r := rng.New(seed)
+	nb := 4 + r.Intn(3)
+	outcomes := make([]string, nb)
+	for i := range outcomes {
+		outcomes[i] = "accept"
+	}
+	rej := 1 + r.Intn(nb-2) // not the first, not the last: accepted batches follow
+	outcomes[rej] = "perm"
+	if r.Bool() && rej+2 < nb {
+		outcomes[rej+2] = "perm"
+	}
+	rs, err := startRecvServer(func(st *streamRec) {
+		st.cons.outcomes = append(st.cons.outcomes, outcomes...)
+	})
+	if err != nil {
+		c.note("note cannot listen on loopback: %v", err)
+		return c
+	}
+	defer rs.srv.Stop()
+	conn, err := grpc.NewClient(rs.addr, grpc.WithTransportCredentials(insecure.NewCredentials()))
+	if err != nil {
+		c.fail("harness-grpc", "NewClient: %v", err)
+		return c
+	}
+	defer conn.Close()
+	ctx, cancel := context.WithTimeout(context.Background(), 20*time.Second)
+	defer cancel()
+	st, err := stef_proto.NewSTEFDestinationClient(conn).Stream(ctx)
+	if err != nil {
+		c.fail("harness-grpc", "Stream: %v", err)
+		return c
+	}
+	if err := st.Send(&stef_proto.STEFClientMessage{FirstMessage: &stef_proto.STEFClientFirstMessage{RootStructName: otelstef.MetricsStructName}}); err != nil {
+		c.fail("harness-grpc", "first message: %v", err)
+		return c
+	}
+	if _, err := st.Recv(); err != nil {
+		c.fail("harness-grpc", "capabilities: %v", err)
+		return c
+	}
+	var mu sync.Mutex
+	var resps []wireResp
+	recvDone := make(chan struct{})
+	go func() {
+		defer close(recvDone)
+		for {
+			m, err := st.Recv()
+			if err != nil {
+				return
+			}
+			if d := m.GetResponse(); d != nil {
+				wr := wireResp{ack: d.GetAckRecordId()}
+				for _, x := range d.GetBadDataRecordIdRanges() {
+					wr.ranges = append(wr.ranges, [2]uint64{x.GetFromId(), x.GetToId()})
+				}
+				mu.Lock()
+				resps = append(resps, wr)
+				mu.Unlock()
+			}
+		}
+	}()
+	fc := &frameCollector{}
+	w, err := otelstef.NewMetricsWriter(fc, pkg.WriterOptions{})
+	if err != nil {
+		c.fail("harness-writer", "NewMetricsWriter: %v", err)
+		return c
+	}
+	sent := 0
+	var batchTo []uint64
+	for i := 0; i < nb; i++ {
+		md := genMetrics(r, fmt.Sprintf("b%d", i), 1+r.Intn(3))
+		tree, err := sortedbymetric.OtlpToSortedTree(md)
+		if err == nil {
+			err = tree.ToStef(w)
+		}
+		if err == nil {
+			err = w.Flush()
+		}
+		if err != nil {
+			c.fail("harness-writer", "writing batch %d: %v", i, err)
+			return c
+		}
+		batchTo = append(batchTo, w.RecordCount())
+		for ; sent < len(fc.frames); sent++ {
+			st.Send(&stef_proto.STEFClientMessage{StefBytes: fc.frames[sent], IsEndOfChunk: true})
+		}
+		time.Sleep(time.Duration(12+r.Intn(15)) * time.Millisecond) // a tick or two of the Responder between batches
+	}
+	// wait until the last accepted batch is acknowledged
+	last := batchTo[nb-1]
+	deadline := time.Now().Add(3 * time.Second)
+	for time.Now().Before(deadline) {
+		mu.Lock()
+		done := len(resps) > 0 && resps[len(resps)-1].ack >= last
+		mu.Unlock()
+		if done {
+			break
+		}
+		time.Sleep(5 * time.Millisecond)
+	}
+	time.Sleep(30 * time.Millisecond)
+	st.CloseSend()
+	cancel()
+	<-recvDone
+	mu.Lock()
+	defer mu.Unlock()
+	c.stat("cases-wire-responses", 1)
+	c.note("nontrivial %x", uint64(nb)<<8|uint64(rej))
+	desc := func() string {
+		s := ""
+		for _, x := range resps {
+			s += fmt.Sprintf("ack=%d/%v ", x.ack, x.ranges)
+		}
+		return s
+	}
+	prev := uint64(0)
+	for j, x := range resps {
+		if x.ack < prev {
+			c.fail("ack-regress", "client received acknowledgement id %d after %d (response %d; received: %s)", x.ack, prev, j, desc())
+		}
+		prev = x.ack
+	}
+	for i, out := range outcomes {
+		from := uint64(1)
+		if i > 0 {
+			from = batchTo[i-1] + 1
+		}
+		to := batchTo[i]
+		n := 0
+		for _, x := range resps {
+			for _, rg := range x.ranges {
+				if rg[0] == from && rg[1] == to {
+					n++
+				}
+			}
+		}
+		if out == "perm" && n != 1 {
+			c.fail("bad-batch-reported-twice", "permanently rejected batch %d (ids %d..%d) appears in %d of the responses the CLIENT received over gRPC, want exactly once (outcomes %v; received: %s)", i, from, to, n, outcomes, desc())
+		}
+		if out != "perm" && n != 0 {
+			c.fail("bad-range-spurious", "accepted batch %d (ids %d..%d) is reported as bad data in %d responses the client received (received: %s)", i, from, to, n, desc())
+		}
+	}
 	return c
 }
